@@ -8,3 +8,5 @@ require (
 	golang.org/x/mod v0.22.0 // indirect
 	golang.org/x/sync v0.10.0 // indirect
 )
+
+require golang.org/x/text v0.14.0
